@@ -283,11 +283,15 @@ type c24Proxy struct {
 	frames   []*c24Frame // honest data frames as emitted by the sender
 	fired    []string
 	gapFired bool // an action that removes/delays an ENTRY frame fired (finding C24-wire-gap shape)
-	upDone   atomic.Bool
-	finish   atomic.Bool
-	up, down net.Conn
-	wg       sync.WaitGroup
-	connMu   sync.Mutex
+	// gapVisible: the removed/delayed entry leaves a trace the reader can see (a
+	// swapped pair trips the sequence check; a dropped entry changes the
+	// cumulative payload hash unless its payload is empty)
+	gapVisible bool
+	upDone     atomic.Bool
+	finish     atomic.Bool
+	up, down   net.Conn
+	wg         sync.WaitGroup
+	connMu     sync.Mutex
 }
 
 func c24ReadFrame(r io.Reader) (*c24Frame, error) {
@@ -308,10 +312,10 @@ func c24ReadFrame(r io.Reader) (*c24Frame, error) {
 
 func (p *c24Proxy) count() int { p.mu.Lock(); defer p.mu.Unlock(); return len(p.frames) }
 
-func (p *c24Proxy) snapshot() ([]*c24Frame, []string, bool) {
+func (p *c24Proxy) snapshot() ([]*c24Frame, []string, bool, bool) {
 	p.mu.Lock()
 	defer p.mu.Unlock()
-	return append([]*c24Frame(nil), p.frames...), append([]string(nil), p.fired...), p.gapFired
+	return append([]*c24Frame(nil), p.frames...), append([]string(nil), p.fired...), p.gapFired, p.gapVisible
 }
 
 func (p *c24Proxy) run() {
@@ -412,9 +416,12 @@ func (p *c24Proxy) run() {
 				if fr.Type == MsgReplicateEntry {
 					p.mu.Lock()
 					p.gapFired = true
+					if len(fr.Payload) > 0 {
+						p.gapVisible = true
+					}
 					p.mu.Unlock()
 				}
-				fire(fmt.Sprintf("type=%#x seq=%d", fr.Type, fr.Seq))
+				fire(fmt.Sprintf("type=%#x seq=%d payload=%dB", fr.Type, fr.Seq, len(fr.Payload)))
 			case "swap":
 				held = fr
 				dropped = true
@@ -496,6 +503,7 @@ func (p *c24Proxy) run() {
 				if held.Type == MsgReplicateEntry && fr.Type == MsgReplicateEntry {
 					p.mu.Lock()
 					p.gapFired = true
+					p.gapVisible = true
 					p.mu.Unlock()
 				}
 				ok = write(held.wire())
@@ -782,7 +790,7 @@ func c24Run(c c24Case) (res c24Result) {
 		return
 	}
 	// receiveLoop has returned; connectionLoop flips connected=false after it.
-	frames, fired, gapFired := px.snapshot()
+	frames, fired, gapFired, gapVisible := px.snapshot()
 	apMu.Lock()
 	got := append([][]byte(nil), applied...)
 	apMu.Unlock()
@@ -868,7 +876,7 @@ func c24Run(c c24Case) (res c24Result) {
 				}
 				k++
 			}
-			if res.RecvErrors == 0 {
+			if res.RecvErrors == 0 && gapVisible {
 				fail("C24/wire-gap-never-detected", "an entry frame was removed from the wire and the reader verified the following checkpoint (actions fired %v)", fired)
 			}
 		} else if !ok {
